@@ -124,17 +124,82 @@ def stage(work_dir, resume, layer):
                 mod.open = old
 
 
+class FakeAssignmentLoader:
+    """ReadAssignmentLoader of the second stage: one locus with N_READS intergenic reads"""
+    def __init__(self, *a, **k):
+        self.left = 1
+
+    def has_next(self):
+        return self.left > 0
+
+    def get_next(self):
+        self.left -= 1
+        gi = GeneInfo.from_region("chr1", 1, 1000)
+        reads = []
+        for i in range(N_READS):
+            ra = ia.ReadAssignment("read_%d" % i, ia.ReadAssignmentType.intergenic, ia.IsoformMatch(ia.MatchClassification.intergenic))
+            ra.exons = [(10 + i, 90 + i)]
+            ra.corrected_exons = list(ra.exons)
+            ra.polya_info = PolyAInfo(-1, -1, -1, -1)
+            ra.chr_id, ra.gene_info, ra.mapped_strand = "chr1", gi, "+"
+            reads.append(ra)
+        return gi, reads
+
+
+def stage2(work_dir, resume, layer):
+    """the real construct_models_in_parallel for one chromosome (no annotation, no model construction): real
+    ReadAssignmentAggregator / BEDPrinter / EnumStats; loader, Fasta replaced by fakes"""
+    import src.serialization as ser
+    import src.transcript_printer as tp
+    import src.long_read_counter as lrc
+    saved = (dp.Fasta, dp.ReadAssignmentLoader, dp.__dict__.get("open"), assignment_io.__dict__.get("open"), stats.__dict__.get("open"),
+             lrc.__dict__.get("open"), tp.__dict__.get("open"))
+    dump = os.path.join(work_dir, "smp.save")
+    if not os.path.exists(dump + "_multimappers_chr1"):
+        with builtins.open(dump + "_multimappers_chr1", "wb") as fh:
+            ser.write_int(ser.TERMINATION_INT, fh)
+    dp.Fasta = lambda *a, **k: {"chr1": "A" * 1000}
+    dp.ReadAssignmentLoader = FakeAssignmentLoader
+    for mod in (dp, assignment_io, stats, lrc, tp):
+        mod.open = layer.open
+    try:
+        from src.input_data_storage import SampleData
+        sample = SampleData([["x.bam"]], "smp_chr1", work_dir, {}, None)
+        args = Obj(reference="ref.fa", fai_file_name=None, resume=resume, genedb=None, no_model_construction=True, check_canonical=False,
+                   sqanti_output=False, _cmd_line="x", _version="v", counts_format="both", count_exons=False, read_group=None,
+                   transcript_quantification="unique_only", gene_quantification="unique_only", gzipped=False)
+        read_stat, tr_stat = dp.construct_models_in_parallel(sample, "chr1", dump, args, ["NA"])
+        del read_stat, tr_stat
+        import gc
+        gc.collect()
+        bed = sample.out_corrected_bed
+        content = builtins.open(bed).read() if os.path.exists(bed) else None
+        return {"bed_records": None if content is None else len([l for l in content.splitlines() if l and not l.startswith("#")])}
+    finally:
+        dp.Fasta, dp.ReadAssignmentLoader = saved[0], saved[1]
+        for mod, old in ((dp, saved[2]), (assignment_io, saved[3]), (stats, saved[4]), (lrc, saved[5]), (tp, saved[6])):
+            if old is None:
+                mod.__dict__.pop("open", None)
+            else:
+                mod.open = old
+
+
+STAGES = {"collect": stage, "process": stage2}
+LOCKS = {"collect": "_collected", "process": "_processed"}
+
+
 def main():
     mode, work_dir = sys.argv[1], sys.argv[2]
+    stage_fn = STAGES[os.environ.get("C07_STAGE", "collect")]
     import logging
     logging.disable(logging.CRITICAL)
     if mode == "run":
         layer = Layer(work_dir, int(sys.argv[3]))
-        out = stage(work_dir, False, layer)
+        out = stage_fn(work_dir, False, layer)
         print(json.dumps({"finished": True, "result": out, "events": len(layer.events)}))
     else:
         try:
-            out = stage(work_dir, True, Layer(work_dir))
+            out = stage_fn(work_dir, True, Layer(work_dir))
             print(json.dumps({"ok": True, "result": out}))
         except BaseException as e:  # noqa
             print(json.dumps({"ok": False, "error": "%s: %s" % (type(e).__name__, str(e)[:120])}))
